@@ -1,48 +1,40 @@
-(* Witness histories (found by the correspondence search, harness/props/C18.py, then
-   minimised): storing the same session ID twice breaks every guarantee of the cache.
-   Evaluated on the model by vm_compute; the harness replays the same histories on the real
-   SessionCache on every run and compares state and outcome after every call. *)
+(* Regression histories and the one residue of the sequential statements.
+
+   Before the fix "SessionCache must not drop a live entry when a session ID is stored twice"
+   (tlslite-ng commit 7684882) the statements of Props/C18.v held only for pairwise distinct
+   stored IDs and were REFUTED in general by the two histories below (then:
+   cache_refines_spec_refuted, cache_no_internal_error_refuted with dup_history: the lookup of
+   id 1 raised KeyError although session 11 was live, and the next store raised KeyError from
+   inside __setitem__; cache_size_bound_refuted with leak_history: 3 dict entries in a cache
+   with maxEntries = 2, growing without bound).  On the repaired code both histories satisfy the
+   specification; they are kept as regression cases and replayed on the real class every run. *)
 From Coq Require Import ZArith List Bool Lia.
 From TV Require Import Base.Prelude Base.C18_Lib Model.C18_Cache Spec.C18_CacheSpec.
 Import ListNotations.
 Open Scope Z_scope.
 
-(* maxEntries = 3, maxAge = 100, clock constant.
-   id 1 is stored twice; the third store evicts the OLD slot of id 1 and with it the live
-   dict entry: the lookup fails although session 11 is the newest-but-one entry; the next
-   store then finds the stale second slot and raises KeyError from inside __setitem__. *)
 Definition dup_history : history :=
   [(0, Put 1 10); (0, Put 1 11); (0, Put 2 12); (0, Get 1); (0, Put 3 13)].
 
-Lemma dup_history_monotone : monotone dup_history.
-Proof. cbn. lia. Qed.
-
-Lemma dup_history_outcomes :
-  outcomes 3 100 dup_history = [ORet None; ORet None; ORet None; OExc KeyError; OExc KeyError] /\
-  spec_outcomes 3 100 dup_history = [ORet None; ORet None; ORet None; ORet (Some 11); ORet None].
-Proof. split; vm_compute; reflexivity. Qed.
-
-Lemma refines_refuted : exists n maxAge h,
-  1 <= n /\ monotone h /\ outcomes n maxAge h <> spec_outcomes n maxAge h.
-Proof.
-  exists 3, 100, dup_history. split; [lia|]. split; [exact dup_history_monotone|].
-  destruct dup_history_outcomes as [-> ->]. discriminate.
-Qed.
-
-Lemma no_internal_error_refuted : exists n maxAge h,
-  1 <= n /\ monotone h /\ all_documented h (outcomes n maxAge h) = false.
-Proof.
-  exists 3, 100, dup_history. split; [lia|]. split; [exact dup_history_monotone|]. vm_compute. reflexivity.
-Qed.
-
-(* maxEntries = 2: every (x, x, y) triple of stores leaks one dict entry for ever *)
 Definition leak_history : history :=
   [(0, Put 1 10); (0, Put 1 11); (0, Put 2 12);
    (0, Put 3 13); (0, Put 3 14); (0, Put 4 15);
    (0, Put 5 16)].
 
-Lemma size_bound_refuted : exists n maxAge h,
-  1 <= n /\ monotone h /\ n < zlen (c_dict (final_cache n maxAge h)).
+Lemma dup_history_now_ok :
+  outcomes 3 100 dup_history = [ORet None; ORet None; ORet None; ORet (Some 11); ORet None] /\
+  spec_outcomes 3 100 dup_history = [ORet None; ORet None; ORet None; ORet (Some 11); ORet None].
+Proof. split; vm_compute; reflexivity. Qed.
+
+Lemma leak_history_now_ok : zlen (c_dict (final_cache 2 100 leak_history)) = 1.
+Proof. vm_compute. reflexivity. Qed.
+
+(* Residue: the guard 1 <= maxEntries of the full theorems is necessary.  SessionCache(0) has an
+   empty circular list: every store inserts into the dict and then raises IndexError from
+   `self.entriesList[self.lastIndex] = ...` (the constructor accepts 0 silently). *)
+Lemma zero_capacity_refuted : exists maxAge h,
+  monotone h /\ all_documented h (outcomes 0 maxAge h) = false /\
+  0 - 1 < zlen (c_dict (final_cache 0 maxAge h)).
 Proof.
-  exists 2, 100, leak_history. split; [lia|]. split; [cbn; lia|]. vm_compute. reflexivity.
+  exists 100, [(0, Put 1 10)]. split; [exact I|]. split; vm_compute; reflexivity.
 Qed.
